@@ -852,3 +852,45 @@ func wireFacts(fd *ast.FuncDecl, reading bool) string {
 	}
 	return fmt.Sprintf("⟨%s, %s, %s⟩", lst(head), lst(per), b)
 }
+
+// setterIR transcribes a configuration setter (SetMax, SetNullValue) statement by statement: the lock prologue,
+// `this.<field> = <the parameter>` and `return this` are recognised; anything else is `.unknown`.
+func setterIR(fd *ast.FuncDecl) string {
+	if fd == nil {
+		return "[]"
+	}
+	names, _ := params(fd)
+	var out []string
+	for _, st := range fd.Body.List {
+		switch t := st.(type) {
+		case *ast.ExprStmt:
+			if stmtCalls(t) != "this.lock.Lock()" {
+				out = append(out, ".unknown")
+			}
+		case *ast.DeferStmt:
+			if stmtCalls(t) != "this.lock.Unlock()" {
+				out = append(out, ".unknown")
+			}
+		case *ast.AssignStmt:
+			tok := ".unknown"
+			if len(t.Lhs) == 1 && len(t.Rhs) == 1 && t.Tok == token.ASSIGN && len(names) == 1 && exprStr(t.Rhs[0]) == names[0] {
+				switch exprStr(t.Lhs[0]) {
+				case "this.max":
+					tok = ".assignMax"
+				case "this.NONE":
+					tok = ".assignNone"
+				}
+			}
+			out = append(out, tok)
+		case *ast.ReturnStmt:
+			if len(t.Results) == 1 && exprStr(t.Results[0]) == "this" {
+				out = append(out, ".retThis")
+			} else {
+				out = append(out, ".unknown")
+			}
+		default:
+			out = append(out, ".unknown")
+		}
+	}
+	return lst(out)
+}
